@@ -68,7 +68,16 @@ def workload():
         hdr = headers[i % 3]
         cases.append(('links-json-%d' % i, 'links_json', dict(a_text=a, b_text=b, a_headers=hdr, b_headers=hdr)))
         cases.append(('links-html-%d' % i, 'links', dict(a_text=a, b_text=b)))
-    return cases
+    # pages nested deeper than the interpreter's default recursion limit, first and last in the workload: whether they can be diffed
+    # must not depend on which differ (or module) happened to run before in this process
+    deep_a = '<div>' * 1200 + '<p>bottom old</p>' + '</div>' * 1200
+    deep_b = '<div>' * 1200 + '<p>bottom new <a href="/x">l</a></p>' + '</div>' * 1200
+    first = [('deep-render-first', 'html_token', dict(a_text=deep_a, b_text=deep_b, include='combined')),
+             ('deep-links-first', 'links_json', dict(a_text=deep_a, b_text=deep_b))]
+    last = [('deep-render-last', 'html_token', dict(a_text=deep_b, b_text=deep_a, include='insertions')),
+            ('deep-text-last', 'html_text_dmp', dict(a_text=deep_a, b_text=deep_b)),
+            ('deep-source-last', 'html_source_dmp', dict(a_text=deep_a, b_text=deep_b))]
+    return first + cases + last
 
 
 def canonical(x):
